@@ -425,6 +425,9 @@ func (b *baseScreen) LockRegion(x, y, width, height int, lock bool) {
 	cells := b.GetCells()
 	b.Lock()
 	for j := y; j < (y + height); j += 1 {
+		// a wide rune just left of the region could not be shown while
+		// its right half -- the first cell of this row -- was locked
+		wasLocked := !lock && width > 0 && cells.locked(x, j)
 		for i := x; i < (x + width); i += 1 {
 			switch lock {
 			case true:
@@ -433,9 +436,8 @@ func (b *baseScreen) LockRegion(x, y, width, height int, lock bool) {
 				cells.UnlockCell(i, j)
 			}
 		}
-		if !lock && width > 0 {
-			// a wide rune just left of the region could not be shown
-			// while its right half was locked; have it drawn again
+		if wasLocked {
+			// have that rune drawn again
 			if _, _, _, w := cells.GetContent(x-1, j); w > 1 {
 				cells.SetDirty(x-1, j, true)
 			}
